@@ -17,11 +17,21 @@
   as it is, `legacyCfg` the code before the repairs notes/C04.fix-1, C06.fix-1 and C06.fix-2.
   Theorems that do not depend on it are stated for every configuration.
 
-  One statement does NOT hold of the code as it is; it is kept visible as
+  Two statements do NOT hold of the code as it is; each is kept visible as
   `…_full`, proved under the hypothesis that excludes the offending schedules,
   and refuted on a schedule that the real core was seen to follow:
     * detector exclusivity needs the detector check and the insertion not to
-      interleave with another creation's (finding create_race).
+      interleave with another creation's (finding create_race);
+    * with reuseUnlockedTasks two creations whose DEPLOY sections overlap can both commit
+      an unlocked task both had earmarked (acquireTasks' reuse loop and its final SetParent
+      hold no lock): two live environments reference one task, and the loser of the commit
+      stays listed in ERROR for ever (finding reuse_claim_race: `C04_overlapping_deploy_full`,
+      `C04_overlapping_deploy_partial`, `C04_finding_reuse_claim_race`,
+      `C04_claim_race_leaves_zombie`).
+  A creation — failed or not — never changes the owner of a task of another live environment
+  (`C04_create_spares_foreign_tasks`, `C04_failed_create_keeps_foreign_locked`; go/ast tie
+  `C04_failed_create_unparents_only_own_is_code`: the failure branch of acquireTasks un-parents
+  only the tasks it launched).
   One statement did not hold and does now (finding reuse_full_claim_crash, fixed):
     * with reuseUnlockedTasks a creation that claimed a task for every one of its
       roles killed the core process: acquireTasks called deployMu.Unlock() outside the
@@ -30,7 +40,7 @@
       `C04_deployMu_is_code` ties `codeCfg.unlockUnpaired` to the go/ast fact read from
       core/task/manager.go.
 -/
-import ControlModel.Proofs.Own
+import ControlModel.Proofs.OwnOverlap
 import ControlModel.Gen.C04Facts
 
 open Own
@@ -72,9 +82,12 @@ theorem C04_cleanup_spares_owned (s : State) (ids : List TaskId) :
     have := (List.mem_filter.mp ht).2
     simp only [Bool.and_eq_true, Bool.not_eq_true', decide_eq_true_eq] at this
     exact this.1
-  · intro t ht; exact (List.mem_filter.mp ht).1
+  · intro t ht; exact mem_doKill_roster List.filter_sublist ht
   · intro t ht hl hnd
-    simp only [cleanup, doKill, List.mem_filter, decide_eq_true_eq, List.mem_map, not_exists, not_and]
+    unfold cleanup
+    rw [doKill_roster]
+    refine List.mem_append.mpr (Or.inl ?_)
+    simp only [List.mem_filter, decide_eq_true_eq, List.mem_map, not_exists, not_and]
     refine ⟨ht, ?_⟩
     intro u hu hid
     obtain ⟨hum, hul⟩ := hu
@@ -133,10 +146,11 @@ theorem C04_create_conflict_inert (s : State) (k : EnvId) (spec : EnvSpec) (o : 
     rw [h4]
     simp only [cleanup, doKill, killMany, List.mem_map]
     refine ⟨m, hm, ?_⟩
-    have : m.id ∉ List.map (fun x => x.id) (List.filter (fun x => x.active) (List.filter (fun t => !t.isLocked) s.roster)) := by
+    have : m.id ∉ List.map (fun x => x.id) (List.filter (fun t => decide (t.id ∉ s.refusing))
+        (List.filter (fun x => x.active) (List.filter (fun t => !t.isLocked) s.roster))) := by
       intro hmem
       obtain ⟨u, hu, hid⟩ := List.mem_map.mp hmem
-      have hu2 := (List.mem_filter.mp (List.mem_filter.mp hu).1)
+      have hu2 := (List.mem_filter.mp (List.mem_filter.mp (List.mem_filter.mp hu).1).1)
       have := hall u hu2.1 hid
       simp [this] at hu2
     rw [if_neg (by simpa [List.mem_map] using this)]
@@ -209,6 +223,138 @@ theorem C04_cfg_constant (reuse : Bool) (hosts : List Host) (steps : List Step) 
 theorem C04_deployMu_is_code : codeCfg.unlockUnpaired = !Gen.lockUnlockPaired ∧
     Gen.deployMuLocks = 1 ∧ Gen.deployMuUnlocks = 1 := by decide
 
+/-! ## a creation and the tasks of the other environments -/
+
+/-- **The settling of a creation — DEPLOY (acquireTasks: claim of unlocked tasks, launches), CONFIGURE and, if either
+    fails, the failure tail (GO_ERROR, forced teardown, KillTasks) — never changes the owner of a task that another
+    live environment references**: in every state of every run (`Inv`), for every oracle, with or without
+    reuseUnlockedTasks, whether the creation of `k` succeeds or fails, a roster task referenced by a listed
+    environment `E ≠ k` is owned by `E` before and after; `E`'s record is the very same afterwards. In particular a
+    FAILED creation un-parents nothing but what it launched or claimed itself. -/
+theorem C04_create_spares_foreign_tasks (s : State) (k : EnvId) (o : SettleOracle) (h : Inv s)
+    (E : Env) (hE : E ∈ s.envs) (hne : E.id ≠ k) (hte : E.tearing = false) :
+    E ∈ (createSettle s k o).1.envs ∧
+    (∀ t ∈ s.roster, t.id ∈ E.tasks → t.parent = some E.id) ∧
+    (∀ t' ∈ (createSettle s k o).1.roster, t'.id ∈ E.tasks → t'.parent = some E.id) :=
+  ⟨keepsOthers_createSettle s k o E hE hne, (createSettle_spares_foreign s k o h E hE hne hte).1,
+   (createSettle_spares_foreign s k o h E hE hne hte).2⟩
+
+/-- … and a task locked by a live environment is never taken out of the roster by it: the KillTasks of the failure
+    tail (like every Cleanup / KillTasks, `C04_cleanup_spares_owned`) only picks unlocked tasks, and a creation claims
+    only tasks that are claimable — unlocked — at that moment (`computeClaims_sound`). Stated for the failure tail:
+    a task locked by an environment other than `k` is in the roster after `createFail`, exactly as it was. -/
+theorem C04_failed_create_keeps_foreign_locked (s : State) (k : EnvId) (ids : List TaskId) (late : Bool) (res : Res)
+    (hf : List TaskId) (hnd : (s.roster.map (·.id)).Nodup) (t : Task) (ht : t ∈ s.roster) (hl : t.isLocked = true)
+    (hp : t.parent ≠ some k) : t ∈ (createFail s k ids late res hf).1.roster := by
+  -- the forced teardown of k leaves t as it is
+  have hrel : ∀ (s' : State) (ids' : List TaskId), t ∈ s'.roster → t ∈ (releaseTasks s' k ids').1.roster := by
+    intro s' ids' ht'
+    exact (C04_release_message_foreign s' k ids' t ht' hl hp).1
+  have htd : ∀ (s' : State), t ∈ s'.roster → t ∈ (teardown s' k true late hf).1.roster := by
+    intro s' ht'
+    unfold teardown
+    split
+    · exact ht'
+    · split
+      · exact ht'
+      split
+      · exact ht'
+      split
+      · exact ht'
+      simp only []
+      split
+      · exact hrel _ _ ht'
+      · rename_i E _ _ _ _ _
+        have h1 := hrel s' (tdPlain E) ht'
+        unfold tdFinish
+        simp only []
+        split
+        · exact h1
+        · have h2 : t ∈ (releaseTasks (tdCancel (releaseTasks s' k (tdPlain E)).1 k E) k (tdMsg (releaseTasks s' k (tdPlain E)).1 E)).1.roster :=
+            hrel _ _ h1
+          split
+          · exact h2
+          · exact h2
+  have h1 : t ∈ (teardown (setEnv s k (fun X => { X with state := .ERROR })) k true late hf).1.roster := htd _ ht
+  have hnd1 : ((teardown (setEnv s k (fun X => { X with state := .ERROR })) k true late hf).1.roster.map (·.id)).Nodup := by
+    have : ∀ (s' : State), (s'.roster.map (·.id)).Nodup → ((teardown s' k true late hf).1.roster.map (·.id)).Nodup := by
+      intro s' hnd'
+      have hr : ∀ (s'' : State) (ids' : List TaskId), (s''.roster.map (·.id)).Nodup → ((releaseTasks s'' k ids').1.roster.map (·.id)).Nodup := by
+        intro s'' ids' h''
+        simp only [releaseTasks, List.map_map]
+        have : ((fun (x : Task) => x.id) ∘ fun t => if t.id ∈ ids' then (releaseTask k t).1 else t) = fun x => x.id := by
+          funext x
+          simp only [Function.comp]
+          split
+          · exact (releaseTask_props k x).1
+          · rfl
+        rw [this]; exact h''
+      unfold teardown
+      split
+      · exact hnd'
+      · split
+        · exact hnd'
+        split
+        · exact hnd'
+        split
+        · exact hnd'
+        simp only []
+        split
+        · exact hr _ _ hnd'
+        · unfold tdFinish
+          simp only []
+          split
+          · exact hr _ _ hnd'
+          · split
+            · exact hr _ _ (hr _ _ hnd')
+            · exact hr _ _ (hr _ _ hnd')
+    exact this _ hnd
+  unfold createFail
+  simp only []
+  split
+  · exact h1
+  · -- KillTasks picks unlocked tasks only
+    unfold killTasks
+    rw [doKill_roster]
+    refine List.mem_append.mpr (Or.inl (List.mem_filter.mpr ⟨h1, ?_⟩))
+    simp only [decide_eq_true_eq, List.mem_map, not_exists, not_and]
+    intro u hu hid
+    obtain ⟨hum, hul⟩ := List.mem_filter.mp hu
+    have : u = t := eq_of_nodup_map _ _ hnd1 hum h1 hid
+    subst this
+    simp [hl] at hul
+
+/-- Environment 0 (one task on host 1) is live; environment 1 (same class, same host, reuseUnlockedTasks on) is
+    inserted and about to deploy. -/
+def foreignState : State :=
+  run (init true [1, 2, 3, 4])
+    [.createBegin 0 { bad := .ok, dets := [0], roles := [{ kind := .task, cls := 1, host := 1 }] },
+     .createCleanup 0, .createInsert 0, .createSettle 0 {},
+     .createBegin 1 { bad := .ok, dets := [1], roles := [{ kind := .task, cls := 1, host := 1 }, { kind := .task, cls := 2, host := 2 }] },
+     .createCleanup 1, .createInsert 1]
+
+/-- Non-vacuity of `C04_create_spares_foreign_tasks`: the second creation fails at deployment (its second task dies at
+    launch); its failure tail releases and kills what it launched (tasks 2 and 3), and task 1 is environment 0's,
+    locked, CONFIGURED, exactly as before. -/
+example :
+    (foreignState.envs.map (fun E => (E.id, E.tasks))) = [(0, [1]), (1, [])] ∧
+    (createSettle foreignState 1 { launches := [(1, { mesos := .terminal, active := false })] }).2 = .errDeploy ∧
+    (viewOf (createSettle foreignState 1 { launches := [(1, { mesos := .terminal, active := false })] }).1).roster =
+      [{ task := 1, owner := some 0, locked := true, state := some .CONFIGURED }] ∧
+    (viewOf (createSettle foreignState 1 { launches := [(1, { mesos := .terminal, active := false })] }).1).envs.map (·.env) = [0] := by
+  decide
+
+/-- **The model's failure branch of acquireTasks is the code's**: go/ast of core/task/manager.go finds every
+    `SetParent(nil)` of acquireTasks applied to the key of a range over `deployedTasks` — which is only ever
+    `make(DeploymentMap)` or `roOutcome.deployed`: the tasks this very call launched — and every SetParent on a key of
+    `tasksAlreadyRunning` (the unlocked roster tasks the call had merely earmarked for reuse) carrying a role, under
+    `if deploymentSuccess`. A failed acquisition therefore touches the parent of no task it did not launch — in
+    particular not of a reuse candidate that another environment has taken over since it was earmarked (the model:
+    `C04_create_spares_foreign_tasks`; through the API the window cannot be held open in this code base: a creation that
+    claims a task never gets past DEPLOY, `C04_full_claim_times_out`). -/
+theorem C04_failed_create_unparents_only_own_is_code :
+    Gen.failedAcquireUnparentsOnlyDeployed = true ∧ Gen.acquireSetParentCounts = (1, 1, 1, 1) := by decide
+
 /-- An environment is destroyed with keepTasks while a second one, with the same task class on
     the same host, is between its pre-deployment cleanup and its acquireTasks. -/
 def crashSchedule : List Step :=
@@ -268,3 +414,58 @@ theorem C04_claim_race_schedule :
     (step (run (init true [1, 2, 3, 4]) (claimRaceSchedule.take 14)) (.createSettle 1 {})).2 = .errDeploy ∧
     (step (run (init true [1, 2, 3, 4]) (claimRaceSchedule.take 15)) (.createSettle 2 {})).2 = .errDeploy ∧
     (viewOf (run (init true [1, 2, 3, 4]) claimRaceSchedule)).envs = [] := by decide
+
+/-! ## two creations whose DEPLOY sections overlap -/
+
+/-- The full-strength claim for creations that overlap in their DEPLOY sections (each environment has its own
+    transition mutex; acquireTasks' reuse loop and its final `SetParent` hold no lock): in every state such a pair of
+    creations passes through — after the first DEPLOY, after the second, after what follows DEPLOY for either, in either
+    order —, from any state of any run of the code as it is with reuseUnlockedTasks, every task is referenced by at most
+    one live environment and owned by it or by nobody. -/
+def C04_overlapping_deploy_full : Prop :=
+  ∀ (hosts : List Host) (steps : List Step) (k1 k2 : EnvId) (o1 o2 : SettleOracle) (firstRest : Bool),
+    ∀ st ∈ settleOverlapStates (run (init true hosts codeCfg) steps) k1 k2 o1 o2 firstRest, exclusiveTasks (viewOf st) = true
+
+/-- **It holds when the claims are made inside the DEPLOY sections** (no free-standing claim step before: the reuse loop
+    and the commit of one acquireTasks are not separated by the commit of another): the second DEPLOY finds the task the
+    first one took locked and does not claim it — every state passed through satisfies the invariant. With or without
+    reuseUnlockedTasks, every configuration. -/
+theorem C04_overlapping_deploy_partial (reuse : Bool) (hosts : List Host) (c : Cfg) (steps : List Step)
+    (h : noClaimSteps steps = true) (k1 k2 : EnvId) (o1 o2 : SettleOracle) (firstRest : Bool) :
+    ∀ st ∈ settleOverlapStates (run (init reuse hosts c) steps) k1 k2 o1 o2 firstRest, exclusiveTasks (viewOf st) = true :=
+  fun st hst => exclusiveTasks_of_inv st
+    (inv_settleOverlapStates _ k1 k2 o1 o2 firstRest (inv_run _ steps h (inv_init reuse hosts c)) st hst)
+
+/-- **Finding reuse_claim_race**: with reuseUnlockedTasks, two creations that both earmarked the unlocked task 1
+    (`claimRaceSchedule` up to the two claim steps: acquireTasks' reuse loop holds no lock) both commit it in their
+    DEPLOY — the second `SetParent` overwrites the first: environments 1 and 2 are listed side by side, both
+    referencing task 1, which is locked by environment 2. Seen on the real core (scenario tag
+    `fixed-reuse-claim-overlap`). -/
+theorem C04_finding_reuse_claim_race : ¬ C04_overlapping_deploy_full := by
+  intro h
+  have := h [1, 2, 3, 4] (claimRaceSchedule.take 14) 1 2 {} {} true
+  revert this
+  decide
+
+/-- … and what it leaves behind for good. Both creations time out at DEPLOY (a claimed role never becomes ACTIVE).
+    The failure tail of environment 1, the loser of the commit, runs first: its forced teardown asks for the release of
+    task 1, which is locked by environment 2 — a release error; TeardownEnvironment gives up, CreateEnvironment drops the
+    error, and environment 1 stays listed, in ERROR, for ever, still referencing task 1. Then the failure tail of
+    environment 2 releases task 1 and kills it. End state: one environment left that nobody can use, referencing a task
+    that was killed under it; every detector it includes stays taken. (What the real core showed, three runs in four.) -/
+theorem C04_claim_race_leaves_zombie :
+    (settleOverlapStates (run (init true [1, 2, 3, 4]) (claimRaceSchedule.take 14)) 1 2 {} {} true).map
+      (fun st => (viewOf st).envs.map (fun E => (E.env, E.tasks))) =
+      [[(1, [1, 2]), (2, [])], [(1, [1, 2]), (2, [1, 3])], [(1, [1, 2]), (2, [1, 3])], [(1, [1, 2])]] ∧
+    (settleOverlapStates (run (init true [1, 2, 3, 4]) (claimRaceSchedule.take 14)) 1 2 {} {} true).map
+      (fun st => (viewOf st).roster.map (fun r => (r.task, r.owner))) =
+      [[(1, some 1), (2, some 1)], [(1, some 2), (2, some 1), (3, some 2)], [(1, some 2), (3, some 2)], []] ∧
+    (settleOverlapStates (run (init true [1, 2, 3, 4]) (claimRaceSchedule.take 14)) 1 2 {} {} true).map
+      (fun st => (viewOf st).master.map (fun m => m.killed)) =
+      [[false, false], [false, false, false], [false, true, false], [true, true, true]] ∧
+    (settleOverlapStates (run (init true [1, 2, 3, 4]) (claimRaceSchedule.take 14)) 1 2 {} {} true).map
+      (fun st => (viewOf st).envs.map (fun E => E.state)) =
+      [[.STANDBY, .STANDBY], [.STANDBY, .STANDBY], [.ERROR, .STANDBY], [.ERROR]] := by decide
+
+/-- The witness violates exactly the hypothesis of `C04_overlapping_deploy_partial`. -/
+theorem C04_claim_race_has_claim_steps : noClaimSteps (claimRaceSchedule.take 14) = false := by decide
